@@ -219,7 +219,7 @@ def generate(zoo, outdir, features=()):
     open(os.path.join(outdir, "zoo.asn1"), "w").write(asn)
     feats = ", ".join('"%s"' % f for f in features)
     toml = ('[package]\nname = "vzoo"\nversion = "0.1.0"\nedition = "2021"\npublish = false\n\n[workspace]\n\n[dependencies]\n'
-            'asn1rs = { path = "/repo", default-features = false, features = ["macros", "model"%s] }\n'
+            'asn1rs = { path = "/repo", default-features = false, features = ["macros", "model", "protobuf"%s] }\n'
             'vharness = { path = "%s"%s }\nserde_json = "1"\n\n'
             '[profile.dev]\nopt-level = 0\ndebug = 0\ndebug-assertions = true\noverflow-checks = true\nincremental = false\n\n'
             '[profile.dev.package."*"]\nopt-level = 1\n') % (
